@@ -74,6 +74,32 @@ func randomValidInsertion(rng *rand.Rand, depth, batch int) *prover.InsertionPar
 	return p
 }
 
+// randomValidInsertion2: the tree history and the start index come from stateRng, the commitments from itemRng — two calls with
+// equal stateRng seeds give different valid batches on the SAME tree state
+func randomValidInsertion2(stateRng, itemRng *rand.Rand, depth, batch int) *prover.InsertionParameters {
+	tree := poseidon_tree.NewTree(depth)
+	n := 1 << depth
+	maxStart := n - batch
+	start := 0
+	if maxStart > 0 {
+		start = stateRng.Intn(maxStart + 1)
+	}
+	for i := 0; i < start; i++ {
+		tree.Update(i, *randField(stateRng))
+	}
+	p := &prover.InsertionParameters{StartIndex: uint32(start)}
+	p.PreRoot = tree.Root()
+	p.IdComms = make([]big.Int, batch)
+	p.MerkleProofs = make([][]big.Int, batch)
+	for i := 0; i < batch; i++ {
+		p.IdComms[i] = *randField(itemRng)
+		p.MerkleProofs[i] = tree.Update(start+i, p.IdComms[i])
+	}
+	p.PostRoot = tree.Root()
+	p.InputHash = *refInputHashInsertion(p)
+	return p
+}
+
 func randomValidDeletion(rng *rand.Rand, depth, batch int) *prover.DeletionParameters {
 	tree := poseidon_tree.NewTree(depth)
 	n := 1 << depth
